@@ -1180,11 +1180,44 @@ static carquet_status_t load_next_page_fread(
  * ============================================================================
  */
 
+/* BYTE_ARRAY values returned by carquet_column_read_batch point into the page data.
+ * One call can cross page boundaries, so the data of a finished page must outlive
+ * the loading of the next page: it is kept until the next read call. */
+static bool retire_page_data(carquet_column_reader_t* reader) {
+    if (!reader->page_data_for_values) {
+        return true;
+    }
+    if (reader->retired_count == reader->retired_capacity) {
+        size_t new_capacity = reader->retired_capacity ? reader->retired_capacity * 2 : 4;
+        uint8_t** grown = realloc(reader->retired_page_data, new_capacity * sizeof(uint8_t*));
+        if (!grown) {
+            return false;
+        }
+        reader->retired_page_data = grown;
+        reader->retired_capacity = new_capacity;
+    }
+    reader->retired_page_data[reader->retired_count++] = reader->page_data_for_values;
+    reader->page_data_for_values = NULL;
+    return true;
+}
+
+void carquet_column_reader_release_retired(carquet_column_reader_t* reader) {
+    for (size_t i = 0; i < reader->retired_count; i++) {
+        free(reader->retired_page_data[i]);
+    }
+    reader->retired_count = 0;
+}
+
 static carquet_status_t load_next_page(
     carquet_column_reader_t* reader,
     carquet_error_t* error) {
 
     carquet_reader_t* file_reader = reader->file_reader;
+
+    if (!retire_page_data(reader)) {
+        CARQUET_SET_ERROR(error, CARQUET_ERROR_OUT_OF_MEMORY, "Failed to retain page data");
+        return CARQUET_ERROR_OUT_OF_MEMORY;
+    }
 
     /* Use mmap/buffer path if memory-mapped or buffer-based reader */
     if (file_reader->mmap_data != NULL) {
